@@ -111,6 +111,29 @@ Theorem Cli_eventual_result :
 Proof. exact cli_eventual_result. Qed.
 Print Assumptions Cli_eventual_result.
 
+(* `anthem simplify` never panics in the simplifier: the classic rewrites panic only outside the
+   parser image, and what they are handed IS the parser's output (audit A8 b) *)
+Theorem Cli_simplify_panic_only_from_parser :
+  forall (fuel : nat) (portfolio : simplification_portfolio) (strategy : simplification_strategy) (s : string),
+    run_cli_fuel fuel (Simplify portfolio strategy) s = Panic ->
+    FolParse.parse_theory_str s = FolParse.PR_panic.
+Proof. exact cli_simplify_panic_only_parser. Qed.
+Print Assumptions Cli_simplify_panic_only_from_parser.
+
+(* all three portfolios: from [cli_fuel_bound s] passes on, every outcome of `simplify` is decided by
+   the parser alone (generalises Cli_simplify_int_ht_terminates to the classic portfolio) *)
+Theorem Cli_simplify_decided_by_parser :
+  forall (m : nat) (portfolio : simplification_portfolio) (strategy : simplification_strategy) (s : string),
+    cli_fuel_bound s <= m ->
+    match run_cli_fuel m (Simplify portfolio strategy) s with
+    | Stdout _ => exists t, FolParse.parse_theory_str s = FolParse.PR_ok t
+    | Error => FolParse.parse_theory_str s = FolParse.PR_err
+    | Panic => FolParse.parse_theory_str s = FolParse.PR_panic
+    | OutOfFuel => FolParse.parse_theory_str s = FolParse.PR_oof
+    end.
+Proof. exact cli_simplify_decided_by_parser. Qed.
+Print Assumptions Cli_simplify_decided_by_parser.
+
 (* `anthem parse --as program --output default FILE` printed [out]: [out] is the rendering of the
    parsed program P and -- outside the class KeywordIdent (finding F7: an identifier spelled `not`
    printed before a spaced token) -- feeding [out] back re-parses to the same tree and prints the
